@@ -9,31 +9,47 @@ NOTE = ("Trusted: Lean 4.33 kernel (axioms propext/Classical.choice/Quot.sound o
         "T1 bridge lemmas + T2/T3 differential runs on the inputs of the run. Runtime shell (CPython, re, protobuf, grpcio, "
         "api-core, jinja2) is modelled, not verified; pandoc is replaced by a stand-in. ")
 
-CLAIMS = {
-    "C07": dict(
-        text="Lean 4 proof, by induction over ALL server page histories, that the pager model yields the items of the pages up "
-             "to and including the first empty token exactly once and in order, sends exactly the received tokens, leaves every "
-             "other request field and call option unchanged, stops at the first empty token, and exposes the last page; and an "
-             "iff-characterisation of paged_result_field (incl. the max_results precedence). Tie: T2 the real "
-             "Method.paged_result_field vs the model on generated shapes; T3 the emitted sync and asyncio pagers against a "
-             "loopback gRPC server with scripted histories vs the model; a model-independent oracle restating the property.",
-        technique="Lean 4 theorems (induction on page histories; iff-characterisation of the classifier) + differential T2/T3 against the emitted pagers",
-        design="7.7",
-        note="The pager's loop is modelled from pagers.py.j2 by hand; maps are compared per page as sets. A server that never returns an empty token is outside the model."),
-    "C19": dict(
-        text="Lean 4 proof (all patterns, all values, no size bound) on a regex-engine model of the emitted re.match that "
-             "parse_<r>_path(<r>_path(vals)) returns exactly the segments and rebuilding returns the path, under an explicit "
-             "decidable hypothesis `Good` (values non-empty, newline-free, not containing the first character of the literal "
-             "that follows); wildcard and non-match theorems; counterexample theorems for what `Good` excludes. Tie: T1 bridge "
-             "of PATH_ARG_RE/common resources, T2 AST equality between the model regex and CPython's parse of the real "
-             "path_regex_str, T3 the static helpers of the imported emitted client vs the model, plus a model-independent oracle.",
-        technique="Lean 4 theorem (induction on pattern segments over a CPS backtracking-regex model) + translator bridge + differential T2/T3",
-        design="7.19",
-        note="Hypotheses of parse_build_partial exclude empty and newline-containing values: both fail on the real code and are listed in known_findings.json."),
-}
+def load_claims():
+    import importlib, sys
+    sys.path.insert(0, os.path.join(ROOT, "harness"))
+    claims = {}
+    for p in PROPS:
+        path = os.path.join(ROOT, "harness", "props", p.lower() + ".py")
+        if not os.path.exists(path):
+            continue
+        mod = importlib.import_module("props." + p.lower())
+        if getattr(mod, "CLAIM", None):
+            claims[p] = mod.CLAIM
+    return claims
+
+
+NOT_APPLICABLE = {}     # property id -> reason, for properties deliberately not claimed
+
+
+def regen_lean():
+    """GapicModel.lean (library root) and GapicModel/Driver.lean (main) from the files present."""
+    lean = os.path.join(ROOT, "lean")
+    props = sorted(f[:-5] for f in os.listdir(os.path.join(lean, "GapicModel", "Props")) if f.endswith(".lean"))
+    drivers = sorted(f[:-5] for f in os.listdir(os.path.join(lean, "GapicModel", "Driver")) if f.endswith(".lean") and f != "Base.lean")
+    root = ["import GapicModel.Regex.Syntax", "import GapicModel.Regex.Match", "import GapicModel.Lemmas.Regex",
+            "import GapicModel.Bridge.All", "import GapicModel.Driver"] + [f"import GapicModel.Props.{p}" for p in props]
+    _write(os.path.join(lean, "GapicModel.lean"), "\n".join(root) + "\n")
+    main = open(os.path.join(lean, "GapicModel", "Driver.lean")).read()
+    head = "import GapicModel.Driver.Base\n" + "".join(f"import GapicModel.Driver.{d}\n" for d in drivers)
+    body = main[main.index("/-\nJSON-lines driver"):]
+    import re as _re
+    body = _re.sub(r"\[\(\"regex\", opRegex\)\][^\n]*", '[("regex", opRegex)]' + "".join(f" ++ ops{d}" for d in drivers), body)
+    _write(os.path.join(lean, "GapicModel", "Driver.lean"), head + body)
+
+
+def _write(path, text):
+    if not os.path.exists(path) or open(path).read() != text:
+        open(path, "w").write(text)
 
 
 def main():
+    CLAIMS = load_claims()
+    regen_lean()
     checks = []
     for p in PROPS:
         if p not in CLAIMS:
@@ -60,7 +76,7 @@ def main():
         "engines": [{"name": "lean4-gapicmodel", "path": "lean/", "serves_properties": sorted(CLAIMS),
                      "kind_free_text": "Lean 4 model + theorems (lake project, no Mathlib in models), JSON-lines driver, Python correspondence harness"}],
         "checks": checks,
-        "not_applicable": [{"property_id": p, "reason": "check not built yet (build in progress; see DESIGN.md section 7)"}
+        "not_applicable": [{"property_id": p, "reason": NOT_APPLICABLE.get(p, "check not built yet (build in progress; see DESIGN.md section 7)")}
                            for p in PROPS if p not in CLAIMS],
         "notes": "fix: commits in /repo are listed in known_findings.json under \"fixed\".",
     }
